@@ -6,13 +6,13 @@
 (* The same module judges the KV and the SQLite store.                        *)
 (*                                                                            *)
 (* The projection of the two invoices in every record is what the executor    *)
-(* READ BACK FROM THE STORE (InvoiceDB.LookupInvoice) after the event, looked  *)
+(* READ BACK FROM THE STORE (InvoiceDB.LookupInvoice) after the event, looked *)
 (* up under the concrete circuit keys of the behaviour's key pattern kp (the  *)
 (* Reset record carries the value classes of the keys it used: ConformReset   *)
 (* compares them with KeyOf).  Besides the comparison with the model          *)
-(* (Conform*), the clauses of the property that speak about recorded state    *)
+(* (Conform..), the clauses of the property that speak about recorded state   *)
 (* are evaluated on that projection itself, together with the answers handed  *)
-(* out in the same event (Store*, no model state involved):                   *)
+(* out in the same event (Store.., no model state involved):                  *)
 (*   StoreResAgree      an HTLC the links were told to settle / fail is held  *)
 (*                      as settled / canceled by the store, a held one as     *)
 (*                      accepted ("no HTLC is both settled and canceled")     *)
@@ -156,16 +156,16 @@ Held(r, d, st) == \E k \in Inv : SH(r, k, d).st = st
 \* records that carry a projection read after an event: all but the opening of a concurrent block and the
 \* records inside one (these repeat the projection taken before the block)
 Snap == l > 1 /\ ~blk.on /\ Last.a # "Par"
-Seq  == Snap /\ Last.a \notin {"Reset", "Join"}
+SeqRec == Snap /\ Last.a \notin {"Reset", "Join"}
 \* (with KeysendQuirk the answer of deviation D1 is exempt here as well: it is reported on its own)
 D1Rec(r) == KeysendQuirk /\ r.a = "Replay" /\ r.why = WKeysend
+HodlAgree(r) == \A d \in C : /\ (r.hodl[d].kd = "settle" => Held(r, d, "settled"))
+                             /\ (r.hodl[d].kd = "fail" => Held(r, d, "canceled"))
+DirectAgree(r) == /\ (r.res = "settle" => Held(r, r.c, "settled"))
+                  /\ (r.res = "accept" => Held(r, r.c, "accepted"))
+                  /\ (r.res = "fail" => (~Held(r, r.c, "settled") /\ ~Held(r, r.c, "accepted")))
 StoreResAgree ==
-  Seq => /\ \A d \in C : /\ Last.hodl[d].kd = "settle" => Held(Last, d, "settled")
-                         /\ Last.hodl[d].kd = "fail" => Held(Last, d, "canceled")
-         /\ (Last.a \in {"Notify", "Replay"} /\ ~D1Rec(Last)) =>
-               /\ Last.res = "settle" => Held(Last, Last.c, "settled")
-               /\ Last.res = "accept" => Held(Last, Last.c, "accepted")
-               /\ Last.res = "fail" => ~Held(Last, Last.c, "settled") /\ ~Held(Last, Last.c, "accepted")
+  SeqRec => (HodlAgree(Last) /\ ((Last.a \in {"Notify", "Replay"} /\ ~D1Rec(Last)) => DirectAgree(Last)))
 StoreAmtPaidExact ==
   Snap => \A k \in Inv : (Last.inv[k].ex = 1 /\ ~IsAmp(k) /\ Last.inv[k].st = "settled") =>
                             (Last.inv[k].paid = StoreSum(Last, k, "settled") /\ Last.inv[k].rem = 0)
